@@ -97,6 +97,8 @@ def coq_ty(t):
         return COQ_TY[t]
     if t.startswith('opt '):
         return 'option (%s)' % coq_ty(t[4:])
+    if t.startswith('unb '):
+        return 'option (%s)' % coq_ty(t[4:])
     if t.startswith('iter '):
         return 'list (%s)' % coq_ty(t[5:])
     return re.sub(r'[A-Za-z_]\w*', lambda m: COQ_TY.get(m.group(0), m.group(0)) if m.group(0) not in ('Z', 'bool', 'nat', 'unit') else m.group(0), t)
@@ -213,7 +215,7 @@ class FnTranslator:
         """a value known to be a T on this path used where T|None is expected"""
         if ty == want:
             return term
-        if want == 'opt ' + ty or (want == 'optZ' and ty == 'Z'):
+        if want == 'opt ' + ty or (want == 'optZ' and ty == 'Z') or want == 'unb ' + ty:
             return '(Some %s)' % term
         return None
 
@@ -313,6 +315,11 @@ class FnTranslator:
                     refuse('local %s may be unbound here' % n.id, n)
                 if v['ty'] == 'opaque':
                     refuse('opaque (string) local %s used in a translated expression' % n.id, n)
+                if v['ty'].startswith('unb '):
+                    # a local first assigned inside a loop (config maybe_locals): None = not bound yet
+                    self.err('UnboundLocalError', n)
+                    b = self.fresh('w')
+                    return [('opt', b, v['coq'], 'UnboundLocalError')], b, v['ty'][4:]
                 return [], v['coq'], v['ty']
             if n.id in self.locals:
                 self.err('UnboundLocalError', n)
@@ -630,6 +637,13 @@ class FnTranslator:
         if not tys:
             return 'unit'
         return '(%s)' % coq_ty(tys[0]) if len(tys) == 1 else '(%s)' % ' * '.join(coq_ty(t) for t in tys)
+
+    def with_maybe_locals(self, env, body_nodes):
+        for v in self.assigned(body_nodes):
+            if v not in env.vars and v in self.cfg.get('maybe_locals', {}):
+                t = self.cfg['maybe_locals'][v]
+                env = env.bind(v, '(@None (%s))' % coq_ty(t), 'unb ' + t)
+        return env
 
     def loop_common(self, s, env, body_nodes):
         """state variables, closure variables and the environment at the head of the loop body"""
@@ -1048,6 +1062,7 @@ class FnTranslator:
         if ix is not None and (ix in self.assigned(s.body) or ix == x):
             refuse('loop counter assigned in the body', s)
         # the loop variable itself may be re-bound in the body (it is bound afresh by every iteration)
+        env = self.with_maybe_locals(env, s.body)
         state, body_locals, closure, benv = self.loop_common(s, env, s.body)
         if x in body_locals:
             body_locals.remove(x)
